@@ -15,7 +15,7 @@ FAMILY = "lint"
 #          proved) is the one the correspondence must match.
 # The variant actually used for the correspondence is read off the real code with three witness pairs (probe_variant);
 # a disagreement between FIXED and the probes is itself reported.
-FIXED = False
+FIXED = True
 if os.environ.get("VERIF_LINT_FIXED"):   # for trying the check against a patched copy of the repository (VERIF_REPO)
     FIXED = os.environ["VERIF_LINT_FIXED"] == "1"
 
